@@ -418,6 +418,18 @@ PASS_THROUGH = {
     "core::mem::take": 0,
 }
 
+def default_value(gargs):
+    """`<T as Default>::default()` for the std types whose default is a fixed value"""
+    ty = (gargs[0] if gargs else "").strip()
+    if ty.startswith("core::option::Option<"):
+        return ("agg", "core::option::Option", "None", ())
+    if ty == "bool":
+        return ("const", 0)
+    if ty in ("u8", "u16", "u32", "u64", "u128", "usize", "i8", "i16", "i32", "i64", "i128", "isize"):
+        return ("const", 0)
+    return None
+
+
 # unwrappers: result = arg.<Variant>.0
 UNWRAP = {
     "core::option::Option::<T>::unwrap": ("Some",),
@@ -897,10 +909,10 @@ class ReachingDefs:
             self._apply(st, site)
         return st
 
-    def _solve_for(self, local, path):
+    def _solve_for(self, local, path, extra_removed=frozenset()):
         """Precise reaching defs for one access path: a def covering the path (its own path is a
         prefix of `path`) kills every earlier def; deeper or mutable-borrow defs accumulate."""
-        key = (local, path)
+        key = (local, path, extra_removed)
         if key in self._per:
             return self._per[key]
         body = self.body
@@ -925,7 +937,7 @@ class ReachingDefs:
                     self._apply_for(st, site, path)
             st = frozenset(st)
             for sc in body.succs(b):
-                if body.blocks[sc]["cleanup"] or (b, sc) in self.removed_edges:
+                if body.blocks[sc]["cleanup"] or (b, sc) in self.removed_edges or (b, sc) in extra_removed:
                     continue
                 if inn[sc] is None:
                     inn[sc] = st
@@ -942,11 +954,12 @@ class ReachingDefs:
             st.clear()
         st.add(site)
 
-    def defs_of(self, local, path, bb, idx):
-        """def sites reaching (bb, idx) that may determine (part of) local.path"""
-        inn, relset = self._solve_for(local, path)
+    def defs_of(self, local, path, bb, idx, extra_removed=frozenset()):
+        """def sites reaching (bb, idx) that may determine (part of) local.path; with `extra_removed` only along
+        paths avoiding those CFG edges (None when the point is unreachable then)"""
+        inn, relset = self._solve_for(local, path, extra_removed)
         if inn[bb] is None:
-            return []
+            return [] if not extra_removed else None
         st = set(inn[bb])
         for site in self._order(bb):
             sidx = site[1]
@@ -1027,11 +1040,59 @@ class Terms:
         elif not terms:
             r = ("undef", local, path)
         else:
-            r = ("phi", frozenset(terms))
+            r = None
+            if not updates and len(sites) <= 8:
+                r = self._gamma(local, path, bb, idx, sites, depth)
+            if r is None:
+                r = ("phi", frozenset(terms))
         if updates:
             r = ("with", r, frozenset(updates))
         self.memo[key] = r
         return r
+
+    def _gamma(self, local, path, bb, idx, sites, depth, removed=frozenset(), level=0):
+        """Gated phi: when the definitions reaching a point are selected by a dominating switch, return
+        ("gamma", switch operand term, ((edge label, value term), ...)) instead of an unordered phi.  `if c {x = a} else
+        {x = b}`, `match`, and `let mut x = d; if c {x = a}` all get the selecting condition attached."""
+        body = self.body
+        if level > 3:
+            return None
+        dom = body.dominators()
+        if bb not in dom:
+            return None
+        site_blocks = [s[0] if isinstance(s[0], int) and s[0] >= 0 else 0 for s in sites]
+        common = set.intersection(*(dom.get(b, {0}) for b in site_blocks)) if site_blocks else {0}
+        cands = [d for d in dom[bb] if body.term(d) is not None and body.term(d)["k"] == "switch" and (d in common or common <= dom.get(d, set()))]
+        cands.sort(key=lambda d: len(dom[d]))
+        full = set(sites)
+        for D in cands:
+            succs = sorted(set(body.succs(D)))
+            if len(succs) < 2:
+                continue
+            per = {}
+            for sc in succs:
+                rem = removed | frozenset((D, o) for o in succs if o != sc)
+                ds = self.rd.defs_of(local, path, bb, idx, rem)
+                if ds is None:
+                    continue  # the point is not reachable through this edge
+                per[sc] = (set(ds), rem)
+            if len(per) < 2 or all(v[0] == full for v in per.values()):
+                continue
+            if any(not v[0] for v in per.values()):
+                return None
+            cond = self.operand(body.term(D)["op"], D, "t", depth + 1)
+            branches = []
+            for sc, (ds, rem) in sorted(per.items()):
+                if any(not _is_prefix(self.rd.sites[x][1], path) for x in ds):
+                    return None
+                ts = {self._site_term(x, local, path, depth + 1) for x in ds}
+                if len(ts) == 1:
+                    v = next(iter(ts))
+                else:
+                    v = self._gamma(local, path, bb, idx, sorted(ds, key=str), depth, rem, level + 1) or ("phi", frozenset(ts))
+                branches.append((edge_label(body, D, sc), v))
+            return ("gamma", cond, tuple(sorted(branches, key=str)))
+        return None
 
     def _project(self, term, path):
         """project a term by remaining access path"""
@@ -1133,7 +1194,7 @@ class Terms:
             return ("unop", rv["op"], self.operand(rv["a"], bb, idx, depth))
         if k == "discr":
             l, p = norm_place(rv["place"])
-            return ("discr", self.place(l, p, bb, idx, depth))
+            return ("discr", self.place(l, p, bb, idx, depth), discr_kind(rv))
         if k == "repeat":
             return ("repeat", self.operand(rv["op"], bb, idx, depth), rv["n"])
         return ("opaque", rv.get("s", k))
@@ -1155,6 +1216,10 @@ class Terms:
         for n in names:
             if n in PASS_THROUGH:
                 return self.operand(args[PASS_THROUGH[n]], bb, "t", depth)
+        if callee == "core::default::Default::default" and not args:
+            d = default_value(t.get("gargs") or [])
+            if d is not None:
+                return d
         at = tuple(self.operand(a, bb, "t", depth) for a in args)
         return ("call", self.call_name(t), at, bb)
 
@@ -1189,11 +1254,35 @@ def simplify_term(t):
             return ("field", simplify_term(base[1]), "as OkOrSome")
         if base[0] == "try" and name in ("as Break",):
             return ("field", simplify_term(base[1]), "as ErrOrNone")
-        if base[0] == "field" and base[2] == "as OkOrSome" and name == "0":
+        if base[0] == "field" and base[2] in ("as OkOrSome", "as Some", "as Ok") and name == "0":
             return ("payload", base[1])
+        if base[0] == "field" and base[2] in ("as ErrOrNone", "as Err") and name == "0":
+            return ("errpayload", base[1])
         if base[0] == "phi":
             return ("phi", frozenset(simplify_term(("field", x, name)) for x in base[1]))
+        if base[0] == "gamma":
+            return simplify_term(("gamma", base[1], tuple((l, ("field", v, name)) for l, v in base[2])))
         return ("field", base, name)
+    if t[0] in ("payload", "errpayload") and len(t) == 2:
+        x = simplify_term(t[1])
+        if isinstance(x, tuple) and len(x) == 4 and x[0] == "agg" and x[1] in ("core::option::Option", "core::result::Result", "core::ops::control_flow::ControlFlow"):
+            good = ("Some", "Ok", "Continue") if t[0] == "payload" else ("Err", "Break")
+            return dict(x[3]).get("0", ("never",)) if x[2] in good else ("never",)
+        if isinstance(x, tuple) and x and x[0] == "try":
+            x = x[1]
+        return (t[0], x)
+    if t[0] == "gamma":
+        c = simplify_term(t[1])
+        brs = [(l, simplify_term(v)) for l, v in t[2]]
+        brs = [(l, v) for l, v in brs if v != ("never",)] or brs
+        dec = [_decide_label(c, l) for l, v in brs]
+        if any(d is True for d in dec):
+            return [v for (l, v), d in zip(brs, dec) if d is True][0]
+        brs = [(l, v) for (l, v), d in zip(brs, dec) if d is not False] or brs
+        vals = {v for l, v in brs}
+        if len(vals) == 1:
+            return next(iter(vals))
+        return ("gamma", c, tuple(sorted(brs, key=str)))
     if t[0] == "phi":
         s = frozenset(simplify_term(x) for x in t[1])
         s = frozenset(x for x in s if x != ("never",)) or s
@@ -1201,16 +1290,65 @@ def simplify_term(t):
     if t[0] == "agg":
         return ("agg", t[1], t[2], tuple((k, simplify_term(v)) for k, v in t[3]))
     if t[0] in ("call", "await"):
-        return (t[0], t[1], tuple(simplify_term(a) for a in t[2]), t[3])
+        args = tuple(simplify_term(a) for a in t[2])
+        if t[0] == "call" and args and isinstance(args[0], tuple) and args[0] and args[0][0] == "agg" and args[0][1] in ("core::option::Option", "core::result::Result"):
+            r = _fold_known(t[1], args)
+            if r is not None:
+                return r
+        return (t[0], t[1], args, t[3])
     if t[0] in ("binop",):
         return ("binop", t[1], simplify_term(t[2]), simplify_term(t[3]))
-    if t[0] in ("unop", "cast", "discr", "try"):
+    if t[0] == "discr":
+        return ("discr", simplify_term(t[1])) + t[2:]
+    if t[0] in ("unop", "cast", "try"):
         return t[:-1] + (simplify_term(t[-1]),)
     if t[0] == "with":
         return ("with", simplify_term(t[1]), frozenset((pth, simplify_term(v)) for pth, v in t[2]))
     if t[0] == "upd":
         return ("upd", t[1], simplify_term(t[2]), tuple(simplify_term(a) for a in t[3]))
     return t
+
+
+_STD_IDX = {"Option": {"None": "0", "Some": "1"}, "Result": {"Ok": "0", "Err": "1"}, "ControlFlow": {"Continue": "0", "Break": "1"}, "Poll": {"Ready": "0", "Pending": "1"}}
+
+
+def _decide_label(cond, labs):
+    """is the switch operand `cond` known to take (True) / not to take (False) the edge `labs`?  None = unknown"""
+    if not isinstance(cond, tuple) or not cond:
+        return None
+    if cond[0] == "const" and isinstance(cond[1], int):
+        return lab_holds(labs, str(cond[1]))
+    if cond[0] == "discr" and isinstance(cond[1], tuple) and cond[1] and cond[1][0] == "agg":
+        adt = cond[1][1].rsplit("::", 1)[-1]
+        idx = _STD_IDX.get(adt, {}).get(cond[1][2])
+        if idx is not None:
+            return lab_holds(labs, idx)
+    return None
+
+
+def _fold_known(callee, args):
+    """Option/Result adaptors applied to a *known* Some/None/Ok/Err aggregate"""
+    from . import names as _n
+    a = args[0]
+    variant = a[2]
+    payload = dict(a[3]).get("0")
+    ok = variant in ("Some", "Ok")
+    is_ = lambda *ps: any(_n.is_(callee, p) for p in ps)
+    if is_("Option::unwrap_or", "Result::unwrap_or") and len(args) == 2:
+        return payload if ok else args[1]
+    if is_("Option::is_some", "Result::is_ok"):
+        return ("const", 1 if ok else 0)
+    if is_("Option::is_none", "Result::is_err"):
+        return ("const", 0 if ok else 1)
+    if is_("Option::unwrap", "Option::expect", "Result::unwrap", "Result::expect") and ok:
+        return payload
+    if is_("Option::ok_or") and len(args) == 2:
+        return ("agg", "core::result::Result", "Ok", (("0", payload),)) if ok else ("agg", "core::result::Result", "Err", (("0", args[1]),))
+    if is_("Option::or") and len(args) == 2:
+        return a if ok else args[1]
+    if not ok and variant == "None" and is_("Option::map", "Option::and_then", "Option::filter", "Option::is_some_and"):
+        return a if not is_("Option::is_some_and") else ("const", 0)
+    return None
 
 
 def term_str(t, depth=0):
@@ -1238,11 +1376,15 @@ def term_str(t, depth=0):
         return "%s(%s, %s)" % (t[1], term_str(t[2], d), term_str(t[3], d))
     if k == "phi":
         return "phi{%s}" % " | ".join(sorted(term_str(x, d) for x in t[1]))
+    if k == "gamma":
+        return "γ(%s){%s}" % (term_str(t[1], d), " | ".join("%s→%s" % (lab_str(l), term_str(v, d)) for l, v in t[2]))
     if k == "upd":
         return "%s.%s(%s)" % (term_str(t[2], d), t[1].rsplit("::", 1)[-1], ", ".join(term_str(a, d) for a in t[3]))
     if k == "with":
         return "%s with {%s}" % (term_str(t[1], d), ", ".join(sorted("%s: %s" % (".".join(str(e) for e in pth), term_str(v, d)) for pth, v in t[2])))
-    if k in ("unop", "cast", "discr", "try"):
+    if k == "discr":
+        return "discr(%s)" % term_str(t[1], d)
+    if k in ("unop", "cast", "try"):
         return "%s(%s)" % (k if k not in ("unop", "cast") else t[1], term_str(t[-1], d))
     return str(t)
 
@@ -1330,6 +1472,227 @@ def lab_true(labs):
 
 def lab_false(labs):
     return lab_holds(labs, "0") and not lab_holds(labs, "1")
+
+
+# --------------------------------------------------------------------------
+# Presence tests in normal form.  `x?`, `match x { Some/Ok .. }`, `if let`, `let else`, `x.is_some()`, `x.is_none()`,
+# `!x.is_ok()`, `x.ok_or(e)?`, `x.map(f).is_some()` ... all test the same thing: "x is Some / Ok / Continue".
+# Rules ask asserts_ok / asserts_fail instead of matching one of those idioms.
+
+STD_KIND = {
+    "core::option::Option": "Option",
+    "core::result::Result": "Result",
+    "core::ops::control_flow::ControlFlow": "ControlFlow",
+    "core::task::poll::Poll": "Poll",
+}
+SUCCESS_IDX = {"Option": "1", "Result": "0", "ControlFlow": "0", "try": "0"}
+
+
+def discr_kind(rv):
+    adt = rv.get("adt")
+    return STD_KIND.get(adt, adt or "")
+
+
+def is_discr(t, inner=None):
+    return isinstance(t, tuple) and len(t) >= 2 and t[0] == "discr" and (inner is None or t[1] == inner)
+
+
+def _flip(labs):
+    """label of the same edge for the negated boolean"""
+    sw = {"0": "1", "1": "0"}
+    return (labs[0],) + tuple(sorted(sw.get(x, x) for x in labs[1:]))
+
+
+_BOOL_TESTS = {  # callee -> (polarity asserted on the true edge, polarity asserted on the false edge); None = nothing asserted
+    "Option::is_some": (True, False), "Option::is_none": (False, True),
+    "Result::is_ok": (True, False), "Result::is_err": (False, True),
+    "ControlFlow::is_continue": (True, False), "ControlFlow::is_break": (False, True),
+    "Option::is_some_and": (True, None), "Result::is_ok_and": (True, None),
+    "Option::is_none_or": (None, True),
+}
+# wrappers under which "is Some/Ok" is *equivalent* for wrapper(x) and x
+_EQUIV = ("Option::ok_or", "Option::ok_or_else", "Option::map", "Result::map", "Result::map_err", "Result::ok",
+          "Option::as_ref", "Option::as_mut", "Option::as_deref", "Option::as_deref_mut", "Result::as_ref", "Result::as_mut",
+          "Result::as_deref", "Option::cloned", "Option::copied", "Result::cloned", "Result::copied", "Option::inspect",
+          "Result::inspect", "Result::inspect_err", "Option::take", "Option::map_or_else", "Into::into", "From::from")
+# wrappers under which success of wrapper(x) *implies* success of x (not the converse)
+_IMPLIES = ("Option::and_then", "Result::and_then", "Option::filter", "Option::zip", "Option::and", "Result::and", "Option::is_some_and", "Result::is_ok_and")
+
+
+def _callee_is(t, pats):
+    from . import names as _n
+    return isinstance(t, tuple) and len(t) == 4 and t[0] in ("call", "await") and isinstance(t[1], str) and any(_n.is_(t[1], p) for p in pats)
+
+
+def presence_test(t, labs):
+    """-> (subject, polarity) if the edge (t, labs) asserts that `subject` is Some/Ok/Continue (True) or None/Err/Break
+    (False); polarity None when the edge asserts neither; returns None when t is not a presence test at all."""
+    if not isinstance(t, tuple) or not t:
+        return None
+    if t[0] == "discr":
+        x = t[1]
+        kind = t[2] if len(t) > 2 else ""
+        if isinstance(x, tuple) and x and x[0] == "try":
+            kind, x = "try", x[1]
+        ok = SUCCESS_IDX.get(kind)
+        if ok is None:
+            return None
+        bad = "1" if ok == "0" else "0"
+        if lab_holds(labs, ok) and not lab_holds(labs, bad):
+            return (x, True)
+        if lab_holds(labs, bad) and not lab_holds(labs, ok):
+            return (x, False)
+        return (x, None)
+    if t[0] == "unop" and t[1] == "Not":
+        return presence_test(t[2], _flip(labs))
+    if len(t) == 4 and t[0] == "call":
+        from . import names as _n
+        for pat, (on_true, on_false) in _BOOL_TESTS.items():
+            if _n.is_(t[1], pat):
+                pol = on_true if lab_true(labs) else (on_false if lab_false(labs) else None)
+                return (t[2][0], pol)
+    return None
+
+
+def _subjects(x, equiv_only):
+    """x and everything whose presence is implied by / equivalent to the presence of x"""
+    seen = 0
+    while isinstance(x, tuple) and x and seen < 12:
+        yield x
+        seen += 1
+        if x[0] == "try":
+            x = x[1]
+        elif x[0] == "payload" and False:
+            break
+        elif _callee_is(x, _EQUIV) or (not equiv_only and _callee_is(x, _IMPLIES)):
+            x = x[2][0]
+        else:
+            break
+
+
+def bool_atom(t, labs):
+    """strip negations: -> (atom, polarity) with polarity True/False when the edge asserts atom / not atom, else None"""
+    pol = True if lab_true(labs) else (False if lab_false(labs) else None)
+    while isinstance(t, tuple) and t and t[0] == "unop" and t[1] == "Not":
+        t = t[2]
+        pol = None if pol is None else not pol
+    return t, pol
+
+
+def emptiness_test(t, labs):
+    """-> (collection term, polarity): the edge asserts that the collection is empty (True) / non-empty (False).
+    Recognises is_empty(), len() == 0, len() != 0, len() > 0, len() >= 1, 0 < len() and their negations."""
+    a, pol = bool_atom(t, labs)
+    if pol is None or not isinstance(a, tuple) or not a:
+        # switch directly on len()
+        if isinstance(t, tuple) and len(t) == 4 and t[0] == "call" and t[1].endswith("::len"):
+            if lab_holds(labs, "0") and labs[0] == "in" and labs[1:] == ("0",):
+                return t[2][0], True
+            if not lab_holds(labs, "0"):
+                return t[2][0], False
+        return None
+    if len(a) == 4 and a[0] == "call" and a[1].endswith("::is_empty"):
+        return a[2][0], pol
+    if a[0] == "binop":
+        op, x, y = a[1], a[2], a[3]
+        is_len = lambda z: isinstance(z, tuple) and len(z) == 4 and z[0] == "call" and z[1].endswith("::len")
+        zero = lambda z: z == ("const", 0)
+        one = lambda z: z == ("const", 1)
+        if is_len(x) and zero(y):
+            if op == "Eq" or op == "Le":
+                return x[2][0], pol
+            if op in ("Ne", "Gt"):
+                return x[2][0], not pol
+        if is_len(y) and zero(x):
+            if op == "Eq" or op == "Ge":
+                return y[2][0], pol
+            if op in ("Ne", "Lt"):
+                return y[2][0], not pol
+        if is_len(x) and one(y) and op == "Ge":
+            return x[2][0], not pol
+        if is_len(x) and one(y) and op == "Lt":
+            return x[2][0], pol
+    return None
+
+
+def gamma_select(t, test):
+    """for a gamma term: {key: value} where key = test(cond, labs) for each branch (None keys kept as None)"""
+    if not (isinstance(t, tuple) and t and t[0] == "gamma"):
+        return None
+    return {test(t[1], l): v for l, v in t[2]}
+
+
+def payload_subject(t):
+    """if t is the payload of a successful value — payload(x), x.as Some.0, x.as Ok.0, unwrap/expect(x) — return x"""
+    if isinstance(t, tuple) and t:
+        if t[0] == "payload":
+            return t[1]
+        if t[0] == "field" and t[2] == "0" and isinstance(t[1], tuple) and t[1][0] == "field" and t[1][2] in ("as Some", "as Ok", "as OkOrSome", "as Continue"):
+            return t[1][1]
+        if _callee_is(t, ("Option::unwrap", "Option::expect", "Result::unwrap", "Result::expect", "Option::unwrap_unchecked")):
+            return t[2][0]
+    return None
+
+
+def is_payload_of(t, pred):
+    """t is the success payload of a value x such that pred holds for x or for something x is an
+    error-mapping / reference wrapper of (ok_or, map_err, as_ref ... — wrappers that do not change the payload)"""
+    x = payload_subject(t)
+    if x is None:
+        return False
+    same_payload = ("Option::ok_or", "Option::ok_or_else", "Result::map_err", "Result::ok", "Option::as_ref", "Option::as_deref",
+                    "Result::as_ref", "Option::cloned", "Option::copied", "Into::into", "From::from")
+    n = 0
+    while isinstance(x, tuple) and x and n < 10:
+        if pred(x):
+            return True
+        n += 1
+        if x[0] == "try":
+            x = x[1]
+        elif _callee_is(x, same_payload):
+            x = x[2][0]
+        else:
+            break
+    return False
+
+
+def asserts_ok(t, labs, pred):
+    """the edge asserts that some value satisfying pred is Some/Ok/Continue"""
+    r = presence_test(t, labs)
+    return bool(r and r[1] is True and any(pred(s) for s in _subjects(r[0], False)))
+
+
+def asserts_fail(t, labs, pred):
+    """the edge asserts that some value satisfying pred is None/Err/Break"""
+    r = presence_test(t, labs)
+    return bool(r and r[1] is False and any(pred(s) for s in _subjects(r[0], True)))
+
+
+def tests_presence_of(t, pred):
+    """the switch operand is a presence test (either polarity) of a value satisfying pred"""
+    r = presence_test(t, ("in", "1")) or presence_test(t, ("in", "0"))
+    return bool(r and any(pred(s) for s in _subjects(r[0], True)))
+
+
+def success_edges(program, body, pred, terms=None):
+    """CFG edges (switch block, successor) asserting that a value satisfying pred is Some/Ok/Continue, and the
+    complementary failure edges of the same switches: ([(sb, succ)], [(sb, succ)])"""
+    T = terms or Terms(program, body)
+    ok, bad = [], []
+    for sb, blk in enumerate(body.blocks):
+        t = blk["term"]
+        if not t or t["k"] != "switch" or blk["cleanup"]:
+            continue
+        term = simplify_term(T.operand(t["op"], sb, "t"))
+        if not tests_presence_of(term, pred) and presence_test(term, ("in", "1")) is None:
+            continue
+        for succ in sorted(set(body.succs(sb))):
+            labs = edge_label(body, sb, succ)
+            if asserts_ok(term, labs, pred):
+                ok.append((sb, succ))
+            elif presence_test(term, labs) is not None and any(pred(s) for s in _subjects(presence_test(term, labs)[0], False)):
+                bad.append((sb, succ))
+    return ok, bad
 
 
 
